@@ -32,12 +32,18 @@ def link_repo():
 def invalidate_repo_builds():
     """The link now names another copy of the repository. Cargo decides freshness of a path
     dependency by file times, so a copy with OLDER files would be taken for already built (and the
-    previous copy's code would be used): drop the fingerprints of the repository's crates."""
+    previous copy's code would be used). The Kani build slots are removed altogether (a partial
+    clean-up of cargo's build-dir layout leaves kani-driver without its metadata); in the native
+    target directories the fingerprints of the repository's and the harness crates are dropped."""
+    import glob
     import shutil
+    for d in glob.glob(os.path.join(BUILD, 'k-t*')) + glob.glob(os.path.join(BUILD, 's-t*')):
+        shutil.rmtree(d, ignore_errors=True)
+    pk = ('taskchampion-sync-server', 'taskchampion_sync_server', 'vk', 'vs', 'vreplay')
     for root, dirs, _files in os.walk(BUILD):
         if os.path.basename(root) == '.fingerprint':
-            for d in dirs:
-                if d.startswith('taskchampion-sync-server') or d.startswith('taskchampion_sync_server') or d.startswith('vk-') or d.startswith('vs-') or d.startswith('vreplay-'):
+            for d in list(dirs):
+                if any(d == p or d.startswith(p + '-') or d.startswith(p + '_') for p in pk):
                     shutil.rmtree(os.path.join(root, d), ignore_errors=True)
             dirs[:] = []
 
